@@ -42,9 +42,26 @@ def precreate_outputs(writer, d):
 BIG_WRITERS = ("extract_chans_big", "extract_bands_big")   # products above 1 MiB: size-dependent writer paths (pre-allocation etc.)
 
 
+ZERO_TAIL_WRITERS = ("mask_zero_tail", "extract_samps_zero_tail")   # the last blocks of the product are all zero (blanked end of a recording)
+ZT_N, ZT_NCH = 3072, 16
+
+
 def run_writer(writer, d, gulp, nbits=8, seed=0, preexisting=False):
     """Perform the write inside directory d. Returns list of output paths."""
     from sigpyproc.readers import FilReader
+
+    if writer in ZERO_TAIL_WRITERS:
+        rng = np.random.default_rng([seed, 78])
+        Xz = rng.integers(1, 200, size=(ZT_N, ZT_NCH)).astype(np.uint8)
+        Xz[-1024:] = 0
+        Xz[1024:1536] = 0          # and one blanked stretch in the middle
+        pz = os.path.join(d, "in.fil")
+        sigfile.write_fil(pz, Xz, 8, fch1=1500.0, foff=-10.0, tsamp=1e-3)
+        filz = FilReader(pz)
+        outz = os.path.join(d, "out.fil")
+        if writer == "mask_zero_tail":
+            return [filz.apply_channel_mask(np.zeros(ZT_NCH, dtype=bool), 0, outz, gulp=512, quiet=True, description="v")]
+        return [filz.extract_samps(0, ZT_N, outz, gulp=512, quiet=True, description="v")]
 
     if writer in BIG_WRITERS:
         rng = np.random.default_rng([seed, 77])
